@@ -39,7 +39,8 @@ Definition rs_agree (g : geom) (d : rsdata) (sc : Q) (i00 i01 i10 i11 is0 is1 : 
   | GRscale => qclose tm i00 (D / r_q2 d) && qclose tm i01 (N / r_q2 d)
   | GRshift =>
       qclose two_m28 (i00 * i00 + i01 * i01) 1 &&
-      (if Qeq_bool D 0 && Qeq_bool N 0 then qclose two_m28 i00 1 && qclose two_m28 i01 0
+      (* all (weighted) uv positions coincide: every unit rotation has the same SSR - nothing to compare *)
+      (if Qeq_bool D 0 && Qeq_bool N 0 then true
        else Qleb (Qabs (i00 * N - i01 * D)) (two_m28 * (Qabs D + Qabs N)) && Qleb 0 (i00 * D + i01 * N))
   | _ => false
   end.
